@@ -206,6 +206,16 @@ JP mkViolation(const std::string &cls, const Op &op, int t, int i,
 
 uint64_t g_opIdCounter = 1ULL << 40;
 
+// the fault plan an operation really runs with.  In the sanitizer builds no allocation is failed inside a function
+// that is not specified to survive it: the unchanged tree dereferences NULL there, which UBSan reports fatally
+// (cannot be contained) and which says nothing about C18.
+inline FaultPlan planFor(const Op &op) {
+#ifdef SIM_DELEGATE_MALLOC
+    if (!fnIsC17(op.fn)) return FaultPlan();
+#endif
+    return op.fault;
+}
+
 // One case = programs + knobs.  prepare() runs the attribution pre-run and the
 // sequential reference once; concurrent() executes the same calls under one
 // schedule and judges them, and may be called several times (preemption sweep).
@@ -292,7 +302,7 @@ void C18Exec::prepare(C18Outcome &out) {
             ExecOpts eo;
             eo.shared = s.shared;
             eo.sealInputs = true;
-            ctx.begin(t, ++g_opIdCounter, fillSeedOf(cs.caseSeed, t, (int)i), op.fault);
+            ctx.begin(t, ++g_opIdCounter, fillSeedOf(cs.caseSeed, t, (int)i), planFor(op));
             Ambient amb0, amb1;
             // "alone" = as the first call of a thread without history (fresh thread-local storage, errno 0)
             schedRunOnFreshThread([&]() {
@@ -427,7 +437,7 @@ void C18Exec::concurrent(const SchedConfig &scIn, C18Outcome &out) {
             // errno holds whatever earlier calls on this thread left in it; alone the call starts with 0
             eo.entryErrno = entryErrnoFor(mix2(cs.caseSeed, op.hash()) + (uint64_t)t);
             OpHeapCtx &c = ctxs[(size_t)t];
-            c.begin(t, ++g_opIdCounter, fillSeedOf(cs.caseSeed, t, (int)i), op.fault);
+            c.begin(t, ++g_opIdCounter, fillSeedOf(cs.caseSeed, t, (int)i), planFor(op));
             heapBind(&c);
             Ambient amb0 = ambientGet(false);
             schedSetOpBudget(s.budget);
